@@ -29,3 +29,15 @@ claim(
     "KS alarms at p < 2e-13 per test; 'effectively -inf' taken as <= -1e30; sampling experiment uses 1500 (quick) / 20000 draws per layout.",
     "Hypothesis PBT with reference model + exact-null KS tests",
 )
+claim(
+    "C10",
+    "Generated-input search over a kernel grammar (SE, RQ, white, heteroscedastic, sums of 2-4, change-points with 2-4 kernels, "
+    "nesting to depth 3, any axis) on free/gridded/clustered/duplicated point sets in 1-3 dimensions: values against reference "
+    "kernels written per pair from the documented formulas (1e-12 of max|K|), exact symmetry and K(u,v)=K(v,u)^T, eigenvalues "
+    ">= -100 n eps max|K|, builder = pairwise + documented diagonal, every hyper-parameter gradient against a 5-point stencil of "
+    "build_covariance with Richardson error control, composites against independently built components (labels, bounds, counts, "
+    "gradient order), mean functions against the documented formulas and stencils.",
+    "Reference kernels share the documented formulas (not the code); stencil cases that do not converge are counted inconclusive; "
+    "length-scales are kept representable (degenerate axes get the coordinate magnitude as span).",
+    "Hypothesis PBT with reference implementation + numerical differentiation",
+)
